@@ -89,3 +89,11 @@ VARIANTS += [
          [(RG14b, '        elif size is not None and size <= 0:\n            raise JaqalError(f"Register {name} cannot have size {size}.")\n', "")],
          ("C14.4", "Register.__init__:size-positive"), ("C14",)),
 ]
+VARIANTS += [
+    fire("c14-index-equal-to-size-accepted",
+         [(RG14b, "        if idx < 0 or (size is not None and idx >= int(size)):", "        if idx < 0 or (size is not None and idx > int(size)):")],
+         ("C14.1", "Register.resolve_qubit:bound-strictness"), ("C14",)),
+    fire("c14-namedqubit-index-equal-to-size-accepted",
+         [(RG14b, "            if alias_index >= from_size or alias_index < 0:", "            if alias_index > from_size or alias_index < 0:")],
+         ("C14.1", "NamedQubit.__init__:bound-strictness"), ("C14",)),
+]
